@@ -643,8 +643,9 @@ class BitStream(ConstBitStream, bitstring.BitArray):
             pos += len(self)
         if pos < 0 or pos > len(self):
             raise ValueError("Overwrite starts outside boundary of bitstring.")
+        new_pos = pos + len(bs)  # Calculated first, as bs can be self which might grow.
         self._overwrite(bs, pos)
-        self._pos = pos + len(bs)
+        self._pos = new_pos
 
     def prepend(self, bs: BitsType, /) -> None:
         """Prepend a bitstring to the current bitstring.
